@@ -96,6 +96,42 @@ func (ex *Exec) stdStub(st *PState, fn *ssa.Function, full string, args []Value)
 			ex.store(st, args[0], ex.mergeVal(eq, args[2], old))
 			return eq, true
 		}
+	case "reflect":
+		// the fragment used to validate "pointer to a settable value" arguments
+		switch full {
+		case "reflect.ValueOf":
+			iv, _ := args[0].(*IfaceV)
+			return &ReflectV{I: iv}, true
+		case "(reflect.Value).Kind":
+			rv := args[0].(*ReflectV)
+			if rv.Elem {
+				fail("reflect.Value.Kind of a dereferenced value is not modelled")
+			}
+			if rv.I == nil || rv.I.T == nil {
+				return ts.Int64(0), true // reflect.Invalid
+			}
+			switch rv.I.T.Underlying().(type) {
+			case *types.Pointer:
+				return ts.Int64(22), true // reflect.Ptr
+			case *types.Slice:
+				return ts.Int64(23), true
+			case *types.Struct:
+				return ts.Int64(25), true
+			}
+			return ts.Int64(1), true // some non-pointer kind (Bool): only compared with Ptr
+		case "(reflect.Value).IsNil":
+			rv := args[0].(*ReflectV)
+			if pv, ok := rv.I.V.(*PtrV); ok {
+				return ts.Bool(pv.Obj == nil), true
+			}
+			fail("reflect.Value.IsNil on %T", rv.I.V)
+		case "(reflect.Value).Elem":
+			rv := args[0].(*ReflectV)
+			return &ReflectV{I: rv.I, Elem: true}, true
+		case "(reflect.Value).CanSet":
+			rv := args[0].(*ReflectV)
+			return ts.Bool(rv.Elem), true
+		}
 	case "runtime":
 		switch fn.Name() {
 		case "NumCPU", "GOMAXPROCS":
@@ -243,7 +279,7 @@ func (ex *Exec) abstractCall(st *PState, fn *ssa.Function, full string, args []V
 	rt := fn.Signature.Recv().Type()
 	if ex.isFelt(rt) {
 		switch fn.Name() {
-		case "MulByNonResidue", "MulByNonResidueInv", "MulBy3", "MulBy5", "MulBy13":
+		case "MulByNonResidue", "MulByNonResidueInv":
 			// small helper methods written in terms of the summarised operations: inline them
 			if fn.Blocks != nil {
 				return nil, false
